@@ -596,3 +596,4 @@ M('r4-chain-drop-after-count', [(TD, '''    drop(core::mem::take(&mut unimock.va
 M('r5-match-inputs-no-matcher-accepts', [('src/call_pattern.rs', '''            (None, _) => Err(PatternError::NoMatcherFunction),''', '''            (None, _) => Ok(true),''')],
   {'C01': r'R01\.6', 'C04': r'R04\.8', 'C06': r'R06\.5'})
 M('r5-never-called-total-overwritten', [('src/fn_mocker.rs', '''            total_calls += pattern''', '''            total_calls = pattern''')], {'C03': r'R03\.2'})
+M('r6-assembler-cursor-starts-at-one', [('src/assemble.rs', '''            current_call_index: 0,''', '''            current_call_index: 1,''')], {'C04': r'R04\.1', 'C18': r'R18\.4'})
